@@ -118,13 +118,33 @@ class PollRun:
             return not self.ch.get("leftover", False)
         if name == "len" and len(args) == 1 and args[0] == Sym("BUF"):
             return self.ch.get("buf_len", 5)
+        if name == "len" and len(args) == 1 and isinstance(args[0], Sym) and isinstance(args[0].tag, tuple) and args[0].tag and args[0].tag[0] in ("view", "index") \
+                and any(c[0] == "block_decode" for c in self.calls):
+            return 1 if self.ch.get("leftover", False) else 0        # what the body decoder left unread of the slice it was given
         if name in ("with_capacity",):
             self.calls.append(("with_capacity", args[0]))
             return Sym("NEWBUF")
         if name == "set_len":
             self.calls.append(("set_len", args[1]))
             return UNIT
+        if name == "from_elem" and d.startswith("alloc::vec") and len(args) == 2:
+            # vec![MaybeUninit::uninit(); n] / vec![0; n]: a buffer of exactly n elements in one step
+            self.calls.append(("with_capacity", args[1]))
+            self.calls.append(("set_len", args[1]))
+            return Sym("NEWBUF")
+        if name in ("resize", "resize_with") and len(args) >= 2 and args[0] == Sym("NEWBUF"):
+            self.calls.append(("set_len", args[1]))
+            return UNIT
         if name == "take" and "mem" in d:
+            # mem::take(place): the place is left empty -- visible in the caller-held state when the place is one of its fields
+            tgt = node["args"][0] if node.get("args") else {}
+            while isinstance(tgt, dict) and tgt.get("k") in ("Borrow", "Deref", "Scope", "Use", "PtrCoerce") and isinstance(tgt.get("e"), dict):
+                tgt = tgt["e"]
+            if isinstance(tgt, dict) and tgt.get("k") in ("Var", "Upvar"):
+                from peval import Ref as _Ref
+                ref = env.get(tgt["var"]["id"])
+                if isinstance(ref, _Ref):
+                    ref.set(Sym("EMPTYVEC"))
             return Sym(("taken", vkey(args[0])))
         if name == "transmute":
             return Sym(("view", vkey(args[0])))
@@ -454,6 +474,13 @@ def poll_body_rules(F, R):
         if step[0] == "eof" and good:
             good = isinstance(out[2][0], Adt) and out[2][0].variant == "UnexpectedEof"
         R.check(good, "P-body", "transport/%s" % step[0], "transport %s in the body state gives %s" % (step[0], out), where=fid)
+        # whatever the transport answered without delivering a byte, the caller-held state is as it was: the next poll resumes
+        # where this one stopped (buffer, index and total intact)
+        st_ = pr.packet.fields.get("state")
+        body_ = st_.fields.get("0") if isinstance(st_, Adt) and st_.variant == "Body" else None
+        same = isinstance(body_, Adt) and body_.fields.get("buf") == Sym("BUF") and body_.fields.get("idx") == 0 and body_.fields.get("header") == Sym("HEADER")
+        R.check(same, "P-body", "transport/%s/state-unchanged" % step[0],
+                "after a transport %s in the body state the caller-held state is %s (expected: unchanged)" % (step[0], repr(st_)[:140]), where=fid)
     # a transport error is returned as it is even when the header type would classify it as an EOF-class error
     # (is_eof_error is for errors of the *body decoder* running on the buffered bytes, not for the transport)
     for nread, script in ((0, [("err",)]), (2, [("chunk", 2), ("err",)])):
